@@ -185,6 +185,18 @@ def judge_roundtrip(case):
         d = compare_models(pm, loaded, case["is_safe"])
         if d:
             v.append(core.viol("C17/process_roundtrip/" + case["model"]["kind"], "saved and re-loaded process model differ: %s" % d, is_safe=case["is_safe"]))
+        if not v:
+            # the directory is removed, ANOTHER model is saved under the same name (same clock answer) and loaded
+            shutil.rmtree(path)
+            other = dict(case["model"], x0=min(case["model"]["x0"] + 0.07, 0.95), steps=case["model"]["steps"] + 1, area=case["model"]["area"] * 1.5)
+            st_o, pm_o = make_model(other)
+            if st_o == "ok":
+                st_s, _r = core.call(pm_o.save, membrane_path=root, is_safe=case["is_safe"])
+                st_l, loaded_o = core.call(U.pyvaporation.ProcessModel.load, path, is_safe=case["is_safe"]) if st_s == "ok" else ("raise", None)
+                if st_s == "ok" and st_l == "ok":
+                    d2 = compare_models(pm_o, loaded_o, case["is_safe"])
+                    if d2:
+                        v.append(core.viol("C17/process_reload_same_path/" + case["model"]["kind"], "another model saved under a re-used directory name loads back wrongly: %s" % d2, is_safe=case["is_safe"]))
         return core.result("roundtrip", digest=core.digest_of([case]), viol=v, states=2, transitions=2, traces=1)
     finally:
         shutil.rmtree(root, ignore_errors=True)
@@ -293,9 +305,19 @@ def judge_function(case):
                         d = "value at x=%r: %r vs %r" % (x, f(x, 333.15), g(x, 333.15))
             if d:
                 v.append(core.viol("C17/function_roundtrip/" + name, "saved and re-loaded permeance function differ: %s" % d))
+        # a DIFFERENT function saved to the SAME path afterwards must be what the next load returns
+        f2 = OPT.PervaporationFunction(n=len(case["a"]), m=len(case["b"]) - 1, alpha=case["alpha"] * 1.75, a=[z - 0.21 for z in case["a"]], b=[z * 1.3 + 1.0 for z in case["b"]])
+        for name, save2, load in (("binary", f2.save, OPT.PervaporationFunction.load), ("json", f2.safe_save, OPT.PervaporationFunction.safe_load)):
+            path = os.path.join(root, "f_" + name)
+            st, r = core.call(save2, path)
+            st2, g2 = core.call(load, path)
+            if st == "ok" and st2 == "ok":
+                d = compare_functions(f2, g2, "function")
+                if d:
+                    v.append(core.viol("C17/function_reload_same_path/" + name, "a second function saved to the same path loads back as something else: %s" % d))
     finally:
         shutil.rmtree(root, ignore_errors=True)
-    return core.result("roundtrip", digest=core.digest_of(case), viol=v, states=3, transitions=4, traces=1)
+    return core.result("roundtrip", digest=core.digest_of(case), viol=v, states=5, transitions=8, traces=1)
 
 
 def judge_conditions(case):
@@ -317,6 +339,12 @@ def judge_conditions(case):
                 v.append(core.viol("C17/conditions_roundtrip", "%s: %r vs %r" % (name, getattr(cond, name), getattr(c2, name))))
         if c2.initial_feed_composition.type != cond.initial_feed_composition.type or not num_eq(c2.initial_feed_composition.p, cond.initial_feed_composition.p):
             v.append(core.viol("C17/conditions_roundtrip", "initial feed composition %r vs %r" % (cond.initial_feed_composition, c2.initial_feed_composition)))
+        cond3 = U.make_conditions(mix, case["area"] * 2.5, case["T"] + 7.0, case["amount"] * 0.3, min(case["x0"] + 0.05, 0.99), case["basis"], mode, "none")
+        core.call(cond3.safe_save, path)
+        st, c4 = core.call(U.Conditions.safe_load, path)
+        if st == "ok" and not (num_eq(c4.membrane_area, cond3.membrane_area) and num_eq(c4.initial_feed_temperature, cond3.initial_feed_temperature)
+                               and num_eq(c4.initial_feed_composition.p, cond3.initial_feed_composition.p)):
+            v.append(core.viol("C17/conditions_reload_same_path", "other conditions saved to the same path load back as the earlier ones"))
     finally:
         shutil.rmtree(root, ignore_errors=True)
     return core.result("roundtrip", digest=core.digest_of(case), viol=v, states=2, transitions=2, traces=1)
@@ -422,9 +450,10 @@ def main(tier, seed):
     for kind in traces.KINDS:
         for mode in ("vac", ("T", -20.0), ("p", 0.5)):
             for basis in ("weight", "molar"):
-                for mixn, model in (("H2O_EtOH", "NRTL"), ("MeOH_DMC", "UNIQUAC")) if not q else (("H2O_EtOH", "NRTL"),):
+                for mixn, model, dt_ in ((("H2O_EtOH", "NRTL", core.lat([0.5, 1.0], seed)[0]), ("MeOH_DMC", "UNIQUAC", 1.0 / 300), ("H2O_iPOH", "NRTL", 0.1 / 3)) if not q
+                                         else (("H2O_EtOH", "NRTL", core.lat([0.5, 1.0], seed)[0]), ("H2O_EtOH", "NRTL", 1.0 / 300))):
                     spec = {"kind": kind, "mixture": mixn, "model": model, "mode": mode, "prog": "exp3" if kind.endswith("noniso") else "none",
-                            "area": 0.05, "amount": 50.0, "dt": core.lat([0.5, 1.0], seed)[0], "steps": 4, "x0": core.lat([0.1, 0.3], seed)[0], "basis": basis, "T": 333.15}
+                            "area": 0.05, "amount": 50.0, "dt": dt_, "steps": 4, "x0": core.lat([0.1, 0.3], seed)[0], "basis": basis, "T": 333.15}
                     if kind.startswith("nonideal"):
                         spec.update(curves=spaces.CURVE_CONFIGS["one"], init_perm=None)
                     models.append(spec)
